@@ -320,18 +320,18 @@ impl ValueMetrics {
     fn calculate(s: &str) -> Self {
         let mut metrics = Self::new();
 
-        let mut prev_single_quotes = 0;
-        let mut prev_double_quotes = 0;
+        let mut prev_single_quotes = 0u8;
+        let mut prev_double_quotes = 0u8;
         for byte in s.as_bytes() {
             if *byte == b'\'' {
-                prev_single_quotes += 1;
+                prev_single_quotes = prev_single_quotes.saturating_add(1);
                 metrics.max_seq_single_quotes =
                     metrics.max_seq_single_quotes.max(prev_single_quotes);
             } else {
                 prev_single_quotes = 0;
             }
             if *byte == b'"' {
-                prev_double_quotes += 1;
+                prev_double_quotes = prev_double_quotes.saturating_add(1);
                 metrics.max_seq_double_quotes =
                     metrics.max_seq_double_quotes.max(prev_double_quotes);
             } else {
